@@ -9,6 +9,10 @@
   allocation in the two recursive containers, and a `ReadBytes` that checks before it allocates.
 -/
 import Golib.Gen.AllocSites
+import Golib.Gen.PackLayouts
+import Golib.Layout.Prefix
+import Golib.Layout.ValueInst
+import Golib.FailClosed.LayoutACorrect
 
 namespace C04Gen
 open Gen.AllocSites
@@ -35,5 +39,101 @@ theorem recursive_containers_grow_lazily :
 
 /-- the translator still recognises the decoders (the table is not vacuous) -/
 theorem sites_found : 15 ≤ sites.length := by decide
+
+/-! ## the guards, interpreted (Golib.FailClosed.SiteCheck)
+
+    `progs` is the transcription of every function that sizes an allocation from a decoded value.
+    `safe` is the dominance check; its soundness against the statement semantics `Exec` is proved
+    once (`FailClosed.Sites.safe_sound`), so the `decide` below yields a statement about every
+    execution of these functions. -/
+
+open FailClosed.Sites in
+theorem progs_safe : progs.all (fun p => safe p.2 []) = true := by decide
+
+/-- the statement programs cover exactly the listed sites -/
+theorem progs_cover_sites :
+    sites.all (fun s => progs.any (fun p => p.1 == s.func)) = true ∧
+    (progs.map (fun p => p.2.makes)).sum = sites.length := by decide
+
+/-- **every allocation sized from the input is bounded by the input** (buffer path): in every
+    execution of a listed function that is entered with at most `N` bytes available — whatever
+    the decoded values, however many bytes each read consumes, however often a loop body or branch
+    runs — each `make([]T, x)` / `New…Map(x)` it performs has `x ≤ max N 255` -/
+theorem every_site_bounded_by_input (f : String) (p : FailClosed.Sites.Prog) (hp : (f, p) ∈ progs)
+    (N : Nat) (s s' : FailClosed.Sites.St) (ha : s.avail ≤ N) (hl : s.log = [])
+    (hx : FailClosed.Sites.Exec p s s') : ∀ e ∈ s'.log, e.2 ≤ max (N : Int) 255 := by
+  have h := List.all_eq_true.mp progs_safe (f, p) hp
+  exact FailClosed.Sites.sites_bounded p h N s s' ha hl hx
+
+/-- non-vacuity: `TextPack.Read` with 100 bytes available, count 16 (16·6 ≤ 100) allocates 16 -/
+example : FailClosed.Sites.Exec
+    (.read "size" "ReadDecimal" (.check "size" 6 (.make "[]TextRec" "size" .done)))
+    ⟨fun _ => 0, 100, []⟩ ⟨fun y => if y = "size" then 16 else 0, 99, [("[]TextRec", 16)]⟩ := by
+  refine .read _ _ _ _ _ 16 99 (by intro h; exact absurd h (by decide)) (by decide) ?_
+  refine .check _ _ _ _ _ (by decide) (by decide) ?_
+  exact .make _ _ _ _ _ (.done _)
+
+/-! ## packs: prefix failure for every transcribed reader (C03's layouts), no assumption -/
+
+open Layout Gen.Packs
+
+/-- whatever transcribed pack / record reader `r` (all of lang/pack that `xlate/c03` transcribes): if
+    `q ++ s` is read completely and `s ≠ []`, the strict prefix `q` is refused -/
+theorem generated_reader_prefix_fails (t : String × L × L) (ht : t ∈ all) (pfx : String) (e : Env)
+    (q s : Bytes) (o : Out) (e' : Env) (hs : s ≠ [])
+    (h : t.2.2.read pfx e (q ++ s) = some (o, e', [])) : t.2.2.read pfx e q = none := by
+  have hall : all.all (fun t => t.2.2.tailFree) = true := by decide
+  exact read_prefix_fails t.2.2 (List.all_eq_true.mp hall t ht) pfx e q s o e' hs h
+
+/-- … and for the layouts whose transcribed writer and reader agree (39 of 55; the others have
+    hand-written writer layouts in C03): no strict prefix of what the *writer* emits for a
+    well-formed record is accepted by the reader -/
+theorem generated_pack_encoding_prefix_fails (t : String × L × L) (ht : t ∈ all)
+    (ha : agrees t.2.1 t.2.2 = true) (E : Env) (pfx : String) (x : Rec)
+    (hwf : t.2.1.WF valueRT E pfx x) (q s : Bytes) (hs : s ≠ [])
+    (hq : q ++ s = t.2.1.write E pfx x) : t.2.2.read pfx E q = none := by
+  have hall : all.all (fun t => t.2.2.tailFree) = true := by decide
+  exact encoding_prefix_fails valueRT t.2.1 t.2.2 ha (List.all_eq_true.mp hall t ht) E pfx x hwf q s hs hq
+
+/-! ## packs: allocation bound for every transcribed reader, by induction on the layout IR
+
+    `FailClosed.toA` is `Layout.L.read` with its allocations (reads byte for byte, a table as
+    `CheckCount(n, 1); make(n elements of ≤ 512 bytes)`, sub-streams charged what decoding the
+    blob costs).  `costOK`: only constructors the instrumented reader handles, every table element
+    beginning with a read. -/
+
+open FailClosed in
+theorem generated_readers_costOK : all.all (fun t => costOK t.2.2) = true := by decide
+
+open FailClosed in
+theorem generated_coef_le : all.all (fun t => decide (coef t.2.2 ≤ 3586)) = true := by decide
+
+/-- the instrumented reader of every transcribed layout reads exactly what the layout reader of
+    C03 reads: guards and allocations are invisible in the result -/
+theorem generated_instrumented_same (t : String × L × L) (ht : t ∈ all) (F : Nat) (pfx : String)
+    (e : Env) (bs : Bytes) (hF : bs.length + 2 ≤ F) :
+    FailClosed.A.run (FailClosed.toA F t.2.2 pfx e) bs = (t.2.2.read pfx e bs).map FailClosed.reshape :=
+  FailClosed.run_toA F t.2.2 (List.all_eq_true.mp generated_readers_costOK t ht) pfx e bs hF
+
+/-- **alloc_bounded for every transcribed pack / record reader**: at most 3586 bytes per input
+    byte, on every byte string (valid, truncated or corrupted) -/
+theorem generated_pack_alloc_bounded (t : String × L × L) (ht : t ∈ all) (F : Nat) (pfx : String)
+    (e : Env) (bs : Bytes) :
+    FailClosed.A.cost (FailClosed.toA F t.2.2 pfx e) bs ≤ 3586 * bs.length := by
+  have h1 := FailClosed.cost_toA_le F t.2.2 (List.all_eq_true.mp generated_readers_costOK t ht) pfx e bs
+  have h2 : FailClosed.coef t.2.2 ≤ 3586 := by
+    have := List.all_eq_true.mp generated_coef_le t ht
+    simpa using this
+  exact Nat.le_trans h1 (Nat.mul_le_mul_right _ h2)
+
+/-- non-vacuity: TextPack's transcribed reader on a header, one record (div 7, hash 9, "A"): 534 units,
+    and on the hostile count 2^31-1 the guard stops it after the 18 bytes read -/
+example : FailClosed.A.cost (FailClosed.toA 1000 TextPack.r "" (fun _ => 0))
+    [0,0,0,0,1,0,0,0,0,0,0,0,2, 1,1, 7, 0,0,0,9, 1,65] = 534 := by decide +kernel
+example : FailClosed.A.cost (FailClosed.toA 1000 TextPack.r "" (fun _ => 0))
+    [0,0,0,0,1,0,0,0,0,0,0,0,2, 4,127,255,255,255] = 18 := by decide +kernel
+
+theorem agreeing_layouts_count :
+    (all.filter (fun t => agrees t.2.1 t.2.2)).length = 39 ∧ all.length = 55 := by decide
 
 end C04Gen
